@@ -154,6 +154,6 @@ def replay(doc):
 
 
 def jobs(tier, seed):
-    n, shards = (2000, 8) if tier == "quick" else (50000, 16)
+    n, shards = (2000, 8) if tier == "quick" else (80000, 16)
     return [{"name": "sched-%d" % k, "kind": "sched", "n": n // shards, "seed": seed * 1000 + 900 + k,
              "shrink": 100 if tier == "quick" else 1000} for k in range(shards)]
